@@ -389,7 +389,8 @@ class BitSet(BaseBitSet):
 
     def discard(self, i):
         bucket = i >> 3
-        self.bits[bucket] &= ~(1 << (i & 7))
+        if bucket < len(self.bits):
+            self.bits[bucket] &= ~(1 << (i & 7))
 
     def _resize_to_other(self, other):
         if other and isinstance(other, (list, tuple, set, frozenset)):
